@@ -271,9 +271,12 @@ Listing(fs, p, what) ==
    ELSE {q \in base : FileIsh(fs, q)}
 
 \* ---- comparison with wildcards: tk = "?" and mode = 0 in an expected node match anything ----
-NodeEq(e, g) == /\ e.k = g.k /\ e.d = g.d /\ e.t = g.t /\ (e.tk = "?" \/ e.tk = g.tk)
+NodeEq(e, g) == /\ e.k = g.k /\ e.d = g.d /\ e.t = g.t /\ (e.tk = "?" \/ e.tk = g.tk \/ e.k # "link")
                 /\ (e.mode = 0 \/ e.mode = g.mode) /\ (e.uid = AnyId \/ e.uid = g.uid) /\ (e.gid = AnyId \/ e.gid = g.gid)
-StEq(E, G) == /\ E.cwd = G.cwd /\ DOMAIN E.fs = DOMAIN G.fs /\ \A p \in DOMAIN E.fs : NodeEq(E.fs[p], G.fs[p])
+\* a link's recorded kind may be the kind at creation (in-memory backend) or the kind its target has now (real filesystem)
+StEq(E, G) == /\ E.cwd = G.cwd /\ DOMAIN E.fs = DOMAIN G.fs
+              /\ \A p \in DOMAIN E.fs : \/ NodeEq(E.fs[p], G.fs[p])
+                                         \/ (G.fs[p].k = "link" /\ G.fs[p].tk = TK(G.fs, G.fs[p].t) /\ NodeEq([E.fs[p] EXCEPT !.tk = "?"], G.fs[p]))
 
 TreeOK(fs) == Root \in DOMAIN fs /\ fs[Root].k = "dir" /\ \A p \in DOMAIN fs \ {Root} : IsDir(fs, Parent(p))
 =============================================================================
